@@ -9,6 +9,7 @@ import Kap.Spec.C02Udp
 import Kap.Model.C02Udp
 import Kap.Model.C02Bounded
 import Kap.Gen.C02Cap
+import Kap.Spec.C02Lock
 open Kap Kap.C02
 
 namespace Kap.C02.Drv
@@ -412,7 +413,33 @@ def expandUdp (lines : Array String) : Array String :=
     | ["udp", db, rp, _, pk] => l :: (pk.splitOn "&").map (fun p => s!"uwrite {db} {rp} {p} => ok")
     | _ => [l])).toArray
 
+/-- the stop-while-writing hammer (harness/c02/hammer.go): `hammer <variant> <n> => <status> <flips> <written> <ranges>`.
+The spec (Kap.C02.Lock.keeperSpec, and "the process survives") is evaluated on the observation; the model's answer
+(theorems locked_never_sends_on_closed / locked_keeper_unaffected of Kap.Props.C02Lock: under the lock discipline the
+keeper's deliveries are 0..written-1 under EVERY schedule) coincides with the spec, so there is no separate MISMATCH. -/
+def judgeHammer (variant n : String) (obs : List String) : Verdict :=
+  match obs with
+  | [status, flips, written, rs] =>
+    if !["fork", "forkall", "task"].contains variant || n.toNat?.isNone then .badop s!"ill-formed hammer op: {variant} {n}" else
+    if status == "crash" then
+      .specfail "no-send-on-closed-edge" s!"hammer {variant}: the process running the real TaskMaster DIED while a task subscribed to the written points was stopped concurrently with the writes (a goroutine of the real code panicked, e.g. forkPoint collected into an edge that delFork had closed: see the check's log); every running task loses its points"
+    else if status == "hang" then
+      .specfail "running-task-unaffected-by-stops-of-others" s!"hammer {variant}: writes / stops of other tasks never returned (30 s)"
+    else if status != "ok" then .badop s!"harness error: the hammer child could not be run ({status})" else
+    match written.toNat?, Lock.expandRanges rs with
+    | some w, some keeper =>
+      if !Lock.keeperSpec w keeper then
+        .specfail "delivered-exactly-once-in-order" s!"hammer {variant}: the keeper task (never stopped) recorded {keeper.length} points for the {w} written ones, first deviation at position {Lock.firstDeviation keeper} ({rs}), while other tasks on the same points were started and stopped"
+      else
+        .ok (flips == "1" && w > 0) ([s!"hammer-{variant}"] ++ (if flips == "1" then ["hammer-stops-concurrent-with-writes"] else [])
+                                    ++ (if some w == n.toNat? then [] else ["hammer-writer-cut-short"]))
+    | _, _ => .badop s!"harness error: unreadable hammer observation {written} {rs}"
+  | _ => .badop "harness error: hammer observation"
+
 def judge (_id : String) (lines : Array String) : Verdict := Id.run do
+  match lines.toList.map (fun l => splitObs (tokens l)) with
+  | [(["hammer", variant, n], obs)] => return judgeHammer variant n obs
+  | _ => pure ()
   let lines := expandUdp lines
   let some cap := edgeCap? | return .badop "the edge capacity was not recognised in the source (Kap/Gen/C02Cap.lean)"
   let mut st : St := {}
